@@ -33,3 +33,5 @@ PY
 else
   echo NOT-CONFIRMED $id; echo "$suite"
 fi
+# disk: a confirmed (or rejected) worktree does not need its build output any more
+rm -rf $wt/target
